@@ -36,7 +36,7 @@ FRAGMENTS = ["[Song]", "[SyncTrack]", "[Events]", "[ExpertSingle]", "[EasyDrums]
 
 def required(tier):
     # which documented error a given bad text raises is the implementation's choice: the error classes are reported, not gated on
-    return ["rejected_with_a_documented_error", "parsed_and_rendered>=1000", "origin:extremes",
+    return ["rejected_with_a_documented_error", "parsed_and_rendered>=1000", "origin:extremes", "parsed_under_a_selection",
             "op:delete_line", "op:duplicate_line", "op:swap_lines", "op:move_structural", "op:char_insert", "op:char_delete", "op:char_substitute",
             "origin:fragments", "origin:unfaulted", "hit:Song", "hit:SyncTrack", "hit:Events", "hit:instrument"]
 
@@ -142,9 +142,14 @@ def render_all(chart):
     return n
 
 
-def judge(rec, text, origin):
-    case = {"text": text}
-    out = harness.parse(text)
+SELS = [[("GUITAR", "EXPERT")], [("GUITAR", "HARD"), ("DRUMS", "EASY")], [], [("KEYS", "MEDIUM"), ("GUITAR", "EXPERT"), ("GHL_BASS", "HARD")]]
+
+
+def judge(rec, text, origin, sel=None):
+    case = {"text": text, "sel": sel}
+    out = harness.parse(text, harness.pairs(sel) if sel is not None else None)
+    if sel is not None:
+        rec.cls("parsed_under_a_selection")
     rec.ev()
     if out.ok:
         try:
@@ -207,12 +212,13 @@ def run_shard(shard, rec, tier, seed):
                               n_globals=rng.choice([0, 5]), n_tempos=rng.choice([1, 2, 6]), newline="\n")
             base = normalise(c["text"])
             judge(rec, base, "unfaulted")
+            judge(rec, base, "unfaulted", SELS[(i // 20) % len(SELS)])
             continue
         if r < 15:
             text = normalise(mutate(rng, rec, base))
             if text == base:
                 continue
-            judge(rec, text, "mutated")
+            judge(rec, text, "mutated", SELS[i % len(SELS)] if i % 7 == 3 else None)
         else:
             judge(rec, normalise(assemble(rng)), "fragments")
         if i in (3, 17):
@@ -232,4 +238,4 @@ def finalize(agg, tier):
 
 def replay(case, rec):
     harness.setup(with_contracts=False)
-    judge(rec, case["text"], "replay")
+    judge(rec, case["text"], "replay", [tuple(p) for p in case["sel"]] if case.get("sel") is not None else None)
